@@ -153,7 +153,7 @@ def analyse_deserialize(impl, wname):
         raise G.Unrecognised("Deserialize impl without deserialize")
     d = {"generic_value": False, "map_guard": False, "len_guard": False, "key_is_string": False,
          "attempts": [], "error_lists": None, "unwrap_sites": [], "panic_sites": [], "order_ok": True,
-         "fn": fn, "helper_generic": [p["name"] for p in fn["generics"]["params"]]}
+         "fn": fn, "helper_generic": [p["name"] for p in fn["generics"]["params"]], "lets_after": {}, "truncates": []}
     stmts, tail = A.block_parts(fn["body"])
     seen = []
     val_name = map_name = key_name = None
@@ -195,9 +195,10 @@ def analyse_deserialize(impl, wname):
                     seen.append("key")
                     continue
             # let msgs: [&[&str]; N] = [ ... ]
-            if init["k"] == "array" and all(list_call(e) for e in init["elems"]):
-                d["error_lists"] = [list_call(e) for e in init["elems"]]
+            if init["k"] == "array" and init["elems"] and all(list_call(e) for e in init["elems"]):
+                d["error_lists"] = (d["error_lists"] or []) + [list_call(e) for e in init["elems"]]
                 seen.append("errlists")
+                d["lets_after"][pn] = init
                 continue
             # let mut err_msg = msgs.into_iter().flatten().fold(format!(".. : "), |acc, m| acc + m + ", ")
             if init["k"] == "mcall" and init["method"] == "fold":
@@ -206,7 +207,15 @@ def analyse_deserialize(impl, wname):
                 d["fold_init_literals"] = lits
                 d["fold_init_macros"] = [A.tt_flat(mm["tt"]) for mm in macs]
                 d["err_msg_name"] = pn
+                d["lets_after"][pn] = init
                 seen.append("fold")
+                continue
+            if "attempts" in seen:
+                # free-form error construction after the routing attempts: remembered for the panic-site rule, lists collected
+                d["lets_after"][pn] = init
+                for arr in A.find_all(init, lambda n: isinstance(n, dict) and n.get("x") and n.get("k") == "array" and n["elems"] and all(list_call(e) for e in n["elems"])):
+                    d["error_lists"] = (d["error_lists"] or []) + [list_call(e) for e in arr["elems"]]
+                seen.append("free-let")
                 continue
             raise G.Unrecognised(f"deserialize: unrecognised let at expanded line {s['ln']}")
         if s["k"] == "expr":
@@ -237,6 +246,7 @@ def analyse_deserialize(impl, wname):
             # err_msg.truncate(err_msg.len() - 2)
             if e["k"] == "mcall" and e["method"] == "truncate":
                 d["truncate"] = e
+                d["truncates"].append(e)
                 seen.append("truncate")
                 continue
             raise G.Unrecognised(f"deserialize: unrecognised statement at expanded line {s['ln']}")
